@@ -51,7 +51,10 @@ type c15Vote struct {
 	Addr     []byte
 	Flag     cmtproto.BlockIDFlag
 	Prices   map[string]*big.Int // pair -> price as carried in the extension
-	ValidSig bool                // signed by Val's key over exactly (L1 chain id, H-1, round, extension)
+	ValidSig bool                // (as judged when the payload was built) signed by Val's key over exactly (L1 chain id, H-1, round, extension)
+	Signer   *l1Val              // whose key produced the signature
+	CtxOK    bool                // the signed bytes bind exactly (L1 chain id, H-1, round, extension)
+	Mangled  bool                // signature truncated, bit-flipped or absent
 	Tag      string
 }
 
@@ -294,6 +297,9 @@ func (c *c15World) genUpdate() (*opchildtypes.MsgUpdateOracle, []c15Vote, uint64
 		if flag != cmtproto.BlockIDFlagCommit {
 			vote.ValidSig = false
 		}
+		vote.Signer = signer
+		vote.CtxOK = chain == node.L1ChainID && hh == int64(H)-1 && rr == int64(round)
+		vote.Mangled = sigMode == "truncated" || sigMode == "flipped" || sigMode == "none"
 		votes = append(votes, vote)
 		info := cometabci.ExtendedVoteInfo{Validator: cometabci.Validator{Address: addr, Power: power}, BlockIdFlag: flag, VoteExtension: ext, ExtensionSignature: sig}
 		if flag != cmtproto.BlockIDFlagCommit && sigMode == "none" {
@@ -597,11 +603,10 @@ func (c *c15World) judge(msg *opchildtypes.MsgUpdateOracle, votes []c15Vote, H u
 		support := map[string]bool{}
 		var lo, hi *big.Int
 		for _, v := range votes {
-			if v.Val == nil || !v.ValidSig || v.Flag != cmtproto.BlockIDFlagCommit {
-				continue
-			}
+			// validity is judged against the validator set recorded now: a payload built (or first relayed)
+			// under another set may carry votes of validators that were unknown then and are members now
 			m := c.set[string(v.Addr)]
-			if m == nil || !bytes.Equal(m.Addr, v.Val.Addr) {
+			if m == nil || v.Flag != cmtproto.BlockIDFlagCommit || v.Mangled || !v.CtxOK || v.Signer == nil || !bytes.Equal(v.Signer.Addr, m.Addr) {
 				continue
 			}
 			pr, has := v.Prices[p]
